@@ -35,6 +35,18 @@ CLAIMS = {
                 'are uninterpreted; base_fee over-approximated; A-HASH/A-CODEC/A-FRESH.',
         'technique': 'bounded symbolic execution of rustc MIR with state joining + z3/cvc5 obligations against a reference map model',
     },
+    'C05': {
+        'text': 'Symbolic execution of the MIR of melstructs Transaction::{base_fee,weight}, the fee segment of '
+                'create_next_state and collect_proposer_action_fee: minimum fee equals ((len + sum of covenant weights + '
+                '1000*outputs) -sat 1000*inputs) *sat multiplier >> 16 for symbolic length / weights / multiplier; a '
+                'transaction is accepted iff fee >= minimum; pool += minimum and tips += remainder (saturating); the '
+                'proposer coin is worth pool>>16 + tips at the reward id / destination, pool and tips shrink by exactly '
+                'that; no overflow under P-SUPPLY.',
+        'design_ref': 'DESIGN.md §8 C05',
+        'note': COMMON_NOTE + ' Serialized length symbolic; covenant weight an uninterpreted function of the bytes (C11). '
+                'One known finding (covenant-weight sum overflow inside melstructs).',
+        'technique': 'bounded symbolic execution of rustc MIR + z3 bit-vector obligations per kernel',
+    },
     'C14': {
         'text': 'Symbolic execution of the MIR of SealedState::confirm and StakeSet::{votes,total_votes}: confirmed => every '
                 'signature valid for the header hash under its own key; all valid and 3P > 2T => confirmed; T > 0 and '
